@@ -25,6 +25,18 @@ type G struct {
 	// LateGrowth lets generators grow a child after it was attached, where the
 	// library sizes the container when asked (see PacketOut).
 	LateGrowth bool
+	// TruncatedPackets: packet headers may declare more bytes than the frame carries (a packet-in holds
+	// the first miss_send_len / max_len bytes of the packet, its IP and UDP length fields those of the whole)
+	TruncatedPackets bool
+}
+
+// claimMore returns how many bytes more than carried a length field declares (0 most of the time).
+func (g *G) claimMore(l string, room int) int {
+	if !g.TruncatedPackets || room <= 0 || !g.Chance(l+"_truncated", 1, 3) {
+		return 0
+	}
+	g.Label("packet_truncated_by_switch")
+	return g.Int(l+"_missing", 1, room)
 }
 
 func New(t *rapid.T, budget int) *G {
